@@ -35,16 +35,16 @@ Ltac split_one :=
   | |- context [if ?a =? ?b then _ else _] => destruct (Z.eqb_spec a b); try lia
   end.
 
-Theorem slice_norm_partial_proof :
+Theorem slice_norm_correct_proof :
   forall (a b c : option Z) (dim : Z),
-    0 <= dim -> c <> Some 0 -> d1_clause b c = true ->
+    0 <= dim -> c <> Some 0 ->
     selects (normalize_slice (VSlice (oz a) (oz b) (oz c)) dim) = slice_selects a b c dim.
 Proof.
-  intros a b c dim Hd Hc Hdom.
+  intros a b c dim Hd Hc.
   unfold slice_selects, slice_indices, adjust.
   unfold normalize_slice, g_replace_none, g_posify_index, g_clip_slice.
   destruct c as [st|]; [assert (st <> 0) by congruence|];
-  destruct a as [s|]; destruct b as [e|]; unfold d1_clause in Hdom;
+  destruct a as [s|]; destruct b as [e|];
   repeat (cbn; split_one); cbn;
   try reflexivity;
   repeat match goal with
@@ -53,18 +53,10 @@ Proof.
   (apply f_equal; apply range_list_equiv; [lia|unfold range_equiv; lia]).
 Qed.
 
-(* the unrestricted statement is false of the code as it stands (D1) *)
-Theorem slice_norm_refuted_proof :
-  exists (a b c : option Z) (dim : Z),
-    0 <= dim /\ c <> Some 0 /\
-    selects (normalize_slice (VSlice (oz a) (oz b) (oz c)) dim) <> slice_selects a b c dim.
-Proof.
-  exists (Some 5), (Some (-1)), (Some (-1)), 10.
-  split; [lia|]. split; [congruence|]. vm_compute. congruence.
-Qed.
-
 (* non-vacuity: the hypotheses of the partial theorem are met by a non-trivial slice *)
 Example slice_norm_nonvacuous :
-  0 <= 10 /\ Some (-2) <> Some 0 /\ d1_clause (Some (-8)) (Some (-2)) = true /\
-  selects (normalize_slice (VSlice (VInt (-2)) (VInt (-8)) (VInt (-2))) 10) = Some [8; 6; 4].
+  0 <= 10 /\ Some (-2) <> Some 0 /\
+  selects (normalize_slice (VSlice (VInt (-2)) (VInt (-8)) (VInt (-2))) 10) = Some [8; 6; 4] /\
+  (* the former defect D1 (fixed by f6512bb): x[5:-1:-1] on length 10 selects nothing *)
+  selects (normalize_slice (VSlice (VInt 5) (VInt (-1)) (VInt (-1))) 10) = Some [].
 Proof. repeat split; try lia; try congruence. Qed.
